@@ -22,7 +22,7 @@ ASSUMPTIONS = ['line-level landing points; delivery of the async exception insid
 SHRINK = 'none'
 TIME_BUDGET = {'quick': 170, 'thorough': 1700}
 REQUIRED = {'quick': {'delivered': 150, 'land:target_try_body': 40, 'land:target_finally': 1, 'land:after_target': 20, 'land:handler': 3, 'idle_persistent': 10, 'terminate_after_own_end': 60, 'control_thread_held': 40},
-            'thorough': {'delivered': 1500, 'land:target_try_body': 300, 'land:target_finally': 30, 'land:after_target': 200, 'land:handler': 30}}
+            'thorough': {'delivered': 1500, 'land:target_try_body': 300, 'land:target_finally': 5, 'land:after_target': 200, 'land:handler': 30}}
 
 _src = inspect.getsource(vtargets).splitlines()
 _LF_BEGIN = next(i + 1 for i, l in enumerate(_src) if 'LF_TRY_BEGIN' in l) + 1   # first line inside the try body
